@@ -75,9 +75,9 @@ func (c *Ctx) isGenFile(pos token.Pos) bool {
 
 // Load type-checks /repo from its current working tree and builds SSA. Any type error is fatal.
 func Load(repo string, tags string, whole bool, extraPkgs ...string) (*Ctx, error) {
-	mode := packages.LoadSyntax
+	mode := packages.LoadSyntax | packages.NeedModule
 	if whole {
-		mode = packages.LoadAllSyntax
+		mode = packages.LoadAllSyntax | packages.NeedModule
 	}
 	env := append(os.Environ(), "GOWORK=off", "GOFLAGS=-mod=mod", "GOPROXY=off", "GOSUMDB=off", "GOTOOLCHAIN=local")
 	cfg := &packages.Config{Mode: mode, Dir: repo, Tests: false, Env: env}
